@@ -13,10 +13,10 @@ ORACLE = {
     "C01": ["refusal", "rt", "trail", "reload", "counts", "propsback"],
     "C02": ["rt", "trail", "wf", "reload"],
     "C04": ["refusal", "status", "rt", "trail", "reload", "counts", "offsets", "offpad", "propsback"],
-    "C05": ["offsets", "offpad", "pos", "trail", "propsback", "ef", "dcf", "exits"],
+    "C05": ["offsets", "offpad", "pos", "trail", "propsback", "ef", "ef2", "dcf", "exits"],
     "C06": ["depth", "chunkrefs", "wf"],
     "C20": ["refusal", "status", "rt", "trail", "reload", "counts", "offsets", "offpad", "propsback", "wf",
-            "ef", "dcf", "exits", "xspec"],
+            "ef", "ef2", "dcf", "exits", "xspec"],
 }
 CORR = {
     "C20": ["reenc", "props"],
